@@ -503,7 +503,7 @@ fn c13_visibility(_ctx: &Ctx, r: &mut Report) {
         }
     }
     for tv in ["", "pub", "pub(crate)"] {
-        for (attr, _kind) in [("TrImpl, delegate_by = DelegateTr", "static"), ("TrImpl, delegate_by = ref", "dynamic")] {
+        for (attr, _kind) in [("TrImpl, delegate_by = DelegateTr", "static"), ("TrImpl, delegate_by = ref", "dynamic"), ("pub TrImpl, delegate_by = DelegateTr", "static"), ("pub(crate) TrImpl, delegate_by = ref", "dynamic"), ("pub TrImpl, delegate_by = Borrow", "dynamic")] {
             let item = format!("{} trait Tr {{ fn f(&self, a: i32) -> i32; }}", tv);
             let input = format!("#[entrait({})] {}", attr, item);
             r.guarded(&input, |r| {
